@@ -18,7 +18,8 @@ DECIDING = ("problems", "log_rows_checked", "jacobian_step_rows_checked", "twin_
 RULE = ("generated merit functions whose unconstrained solution lies outside the limits or far away; random per-knob "
         "limits and max_step values (different per knob, raw steps exceeding several at once); every random subset of "
         "disabled knobs / targets, disabled persistently (disable()) or only for one call (step(disable_target=, "
-        "disable_vary=, disable_vary_name=)); unit weights (exact bounds) and random positive weights (bounds relaxed "
+        "disable_vary=, disable_vary_name=)), knobs named by name, tag, position, or some by tag and the others by name in "
+        "ONE call; unit weights (exact bounds) and random positive weights (bounds relaxed "
         "by 8 eps |limit|). Non-trivial = >= 2 Jacobian-step rows logged; distinct = sha1 of the problem spec.")
 ASSUMPTIONS = [
     "limits, max_step and the disabled subsets are the generator's own inputs",
@@ -38,19 +39,34 @@ def run_once(spec, garbage, percall, how_vary):
     dv = [i for i, x in enumerate(spec["dis_v"]) if x]
     dt = [i for i, x in enumerate(spec["dis_t"]) if x]
     kw = {}
+    # the knobs are named by name, by tag, by position, or ("mixed") some by tag and the others by name IN ONE CALL
+    kv = {}
+    if dv:
+        if how_vary == "name":
+            kv["vary_name"] = ["k%d" % i for i in dv]
+        elif how_vary == "mixed":
+            h = (len(dv) + 1) // 2
+            kv["vary"] = ["v%d" % i for i in dv[:h]]
+            if dv[h:]:
+                kv["vary_name"] = ["k%d" % i for i in dv[h:]]
+        else:
+            kv["vary"] = ["v%d" % i for i in dv] if how_vary == "tag" else dv
     if percall:
-        if dv:
-            if how_vary == "name":
-                kw["disable_vary_name"] = ["k%d" % i for i in dv]
-            else:
-                kw["disable_vary"] = ["v%d" % i for i in dv] if how_vary == "tag" else dv
+        kw.update({"disable_" + k: v for k, v in kv.items()})
         if dt:
             kw["disable_target"] = dt
     else:
-        if dv:
-            S.opt.disable(vary_name=["k%d" % i for i in dv])
-        if dt:
-            S.opt.disable(target=dt)
+        if spec.get("one_call") and (dv or dt):
+            S.opt.disable(**dict(kv, **({"target": dt} if dt else {})))
+        else:
+            if dv:
+                S.opt.disable(**kv)
+            if dt:
+                S.opt.disable(target=dt)
+        # what disable() was asked for is what the flags say
+        want = ([i not in dv for i in range(spec["n"])], [i not in dt for i in range(spec["m"])])
+        if S.flags() != want:
+            S.flag_issue = "after disable(%s%s) the active flags are %s, asked for %s" % (kv, ", target=%s" % dt if dt else "", S.flags(), want)
     S.cont.log.clear()
     before = S.knobs()
     flags_before = S.flags()
@@ -70,6 +86,8 @@ def check_problem(spec, counters, violations):
     names = S.names
     if res.startswith("TypeError") or res.startswith("KeyError") or res.startswith("AttributeError"):
         issues.append("step() raised %s" % res)
+    if getattr(S, "flag_issue", None):
+        issues.append(S.flag_issue)
     counters.setdefault("step_outcomes", {})
     counters["step_outcomes"][res.split(":")[0]] = counters["step_outcomes"].get(res.split(":")[0], 0) + 1
     # (1) a knob that is disabled is never changed
@@ -188,7 +206,8 @@ def gen(rng):
     spec["split_actions"] = rng.random() < 0.35       # one action object per target instead of one for all
     spec["nsteps"] = rng.choice([1, 2, 4, 6])
     spec["percall"] = rng.random() < 0.5
-    spec["how_vary"] = rng.choice(["name", "tag", "index"])
+    spec["how_vary"] = rng.choice(["name", "tag", "index", "mixed"])
+    spec["one_call"] = rng.random() < 0.5
     spec["max_step"] = [rng.choice([None, 0.05, 0.1, 0.5, 2.0]) for _ in range(spec["n"])]
     if rng.random() < 0.5:
         spec["wv"] = [1.0] * spec["n"]
